@@ -134,6 +134,10 @@ class Report:
         for g in gone:
             self.broken_reasons.append(("anchors", "function %s, which the rules of this property name, no longer exists in the tree (renamed, merged into its caller or removed): "
                                                    "the rules that rest on it cannot be evaluated" % g))
+        from . import build as _b
+        if getattr(_b, "ALIASES", None):
+            cov["renamed_functions"] = {v: k for k, v in _b.ALIASES.items()}
+            print("  note: analysed under their reference names (recognised as pure renames): %s" % ", ".join("%s (now %s)" % (v, k) for k, v in sorted(_b.ALIASES.items())))
         cov.update(self.extra)
         ev = {"property_id": self.prop, "tier": self.tier, "seed": seed, "level": self.level, "coverage": cov,
               "assumptions": self.assumptions, "wall_s": round(wall, 3), "violations": len(self.violations)}
